@@ -1,10 +1,10 @@
 from props import reg
 
 reg("C11",
-    check_imports=["Model.FileSeq", "Model.Pipeline", "Check.C10_Check", "Check.C11_Check"],
+    check_imports=["Model.FileSeq", "Model.Pipeline", "Spec.C11_Spec", "Check.C10_Check", "Check.C11_Check"],
     case_type="c11_case", verdicts="c11_verdicts",
     property_modules=["Properties.C11"],
-    theorems=["c11_returns", "c11_error", "c11_prefix", "c11_silence",
+    theorems=["c11_returns", "c11_error", "c11_prefix", "c11_bound", "c11_silence",
               "c11_returns_refuted_unfixed", "c11_error_refuted_unfixed"],
     proof_files=["Base/Prelude.v", "Model/FileSeq.v", "Model/Pipeline.v", "Spec/C10_Spec.v", "Spec/C11_Spec.v",
                  "Proofs/FileSeqFacts.v", "Proofs/PipelineDefs.v", "Proofs/PipelineInv.v",
